@@ -3,10 +3,18 @@
 case kinds
   {"kind":"cksum","data":hex,"start":n,"skip":k|None}        packet_utils.checksum vs model (Model/Checksum.lean) and RFC 1071
   {"kind":"stack","top":cls,"layers":[{k:…,fields…},…,terminal]}   build -> pack -> top(raw=bytes) -> attributes -> re-pack
+  {"kind":"mutparse","top":cls,"layers":[…],"mut":[trunc n | set i v …]}   packed bytes, damaged (or not: raw bodies behind headers that compute
+                                                               the checksums), parsed and re-packed: model comparison only
+  {"kind":"seq","top":cls,"layers":[…],"delta":[{i,f,v}…],"other":[…]?,"bfirst":b}   a call HISTORY on the same objects (HARDENING.md 1, 2, 4):
+        build A (and a second object B of its own, before or after), pack A, pack/parse/re-pack B, change fields of A in place, pack A again
+        (twice), parse the bytes (keyword, positional, classmethod, parse() on an empty object and on an object that parsed B before), re-pack
+        (twice).  Every call must give what the same call gives on fresh objects: the stack property for A-before, B and A-after, equal
+        results for the repeated calls; the model (which has no state) is asked the three stacks separately.
 
 The oracle is independent of the Lean model: it compares the built chain (after pack) with the re-parsed chain, the two
 serialisations, and recomputes every length / Internet-checksum field found in the emitted bytes with the RFC 1071
-implementation in this file (`rfc1071`) over an independent walk of the wire format (`wire_check`).
+implementation in this file (`rfc1071`) over an independent walk of the wire format (`wire_check`), and compares the emitted frame with
+what a reference encoder written from the RFCs in this file (`ref_encode`) produces for the same layer list.
 """
 import os, sys, json, re, struct, copy, traceback, importlib
 import common, poxenv
@@ -351,7 +359,7 @@ class C14(Check):
                     "harness/c14.py detect_variant: whether the tree has the proposed repairs D50 (RIP metric struct 'I') / D49 (EAP request/response keep their body) is found by probing the classes (one RIP entry, one EAP request; the source shapes are a recorded cross-check only); the driver evaluates the model at that variant (XCfg) and the correspondence validates the choice",
                     "the driver answers every stack from the extended model and, for stacks of the ten original classes, refuses to answer unless the original model (the one the chain theorem is about) gives the identical result",
                     "RFC 1071 transcription `Pox.Checksum.rfc1071` (Lean) and `rfc1071` (harness/c14.py), cross-checked against each other on every cksum case",
-                    "the harness's own wire-format walker (wire_check) for the positions of length/checksum fields"]
+                    "the harness's own wire-format walker (wire_check) for the positions of length/checksum fields and its reference encoder (ref_encode: Ethernet, 802.1Q, ARP, IPv4, IPv6, UDP, TCP+options, ICMP, ICMPv6+NDP, MPLS, VXLAN, RIP, IGMPv1/2, DHCP), both written from the RFCs, agreeing with model and code on every run"]
     assumptions = ["little-endian host (array('H') / struct 'H' in packet_utils.checksum are host order; model fixes LE)",
                    "struct packs/unpacks as documented; socket.ntohs swaps bytes",
                    "field values inside their wire ranges; ipv4.hl consistent with len(raw_options); llc.length consistent with control/SNAP (the library does not derive them)",
@@ -363,7 +371,10 @@ class C14(Check):
     level_text = ""      # filled below
     level_note = ""
     rule = ("case = header stack built from the library's own classes (field values from {0, max, sign bit, random}, payload lengths 0..1500 odd/even, option/TLV lists) "
-            "or a direct checksum() call; distinct = sha1 of the canonical case; non-trivial = stack of >= 2 protocol layers or a checksum input of >= 2 bytes")
+            "or a direct checksum() call in every call form the code base uses; or a call history on the same objects (pack, change fields in place, pack again, parse in four call forms, a second object "
+            "of the same classes built before/after); corpus: every payload length 0..33, block-size multiples +-1 of payload and of checksummed region, 65535-byte datagrams, option areas of every size up to "
+            "exactly full, zero at every position, every value of every selector octet (ICMP/ICMPv6 type, IP protocol, TCP option kind, NDP option type/length, DHCP option code, IGMP type) and every prefix of "
+            "NDP/DHCP/RIP/VXLAN/IGMP bodies behind valid checksums; distinct = sha1 of the canonical case; non-trivial = stack of >= 2 protocol layers or a checksum input of >= 2 bytes")
 
     # ------------------------------------------------------------------ setup
     declined = 0
@@ -1977,7 +1988,8 @@ C14.level_text = (
     "bytes every IPv4 total length / IHL / header checksum, UDP length, and UDP/TCP/ICMP checksum is right, the UDP/TCP pseudo header being read from the emitted enclosing IPv4 header "
     "(not assumed); the same for eth/ipv6/{udp,tcp,icmpv6}. Composed frames through the phase-2 parsers: Ethernet+LLDP and eth/ipv4/udp/vxlan/eth/arp. "
     "Every run re-checks the models against the real classes (pack bytes, attributes of the built and re-parsed chains, re-pack) for all of the above, and evaluates the independent "
-    "round-trip / RFC 1071 oracle on all 21 modules.")
+    "round-trip / RFC 1071 / reference-encoding oracle on all 21 modules, on single build->parse runs and on call histories over the same objects (the models are pure functions, so every call "
+    "of a history is compared with the model's answer for that call alone).")
 C14.level_note = (
     "The theorems are about hand-written models (Model/Checksum.lean, PacketLayout.lean, PacketHdr.lean, PacketExt.lean) of the code as committed (repairs D12, D13, D40-D45, D47, D51, D22 are in); "
     "they are tied to the code only by the differential run. PROVED per class (61 theorems): ethernet, vlan, arp, ipv4, udp, tcp, icmp(+echo, unreach, time_exceeded), llc, mpls, lldp, eapol, "
